@@ -40,9 +40,9 @@ def default_value(ex, f, p, node):
     return None
 
 
-def construct_model(ex, p, qual, kwargs, node):
+def construct_model(ex, p, qual, kwargs, node, run_validators=True):
     fields = ex.repo.class_fields(qual)
-    validators = ex.repo.class_validators(qual)
+    validators = ex.repo.class_validators(qual) if run_validators else []
     names = {f["name"] for f in fields}
     aliases = {f["alias"].value: f["name"] for f in fields if isinstance(f["alias"], ast.Constant)}
     kwargs = {aliases.get(k, k): v for k, v in kwargs.items()}
